@@ -162,9 +162,29 @@ def gen_history(rng, maxlen=22):
     return cfg, ops
 
 
+def dir_exists(raw):
+    """every directory the operating system walks through when it resolves `raw` exists (so that
+    its resolution is `normpath`): component by component inside the tree of DIRS"""
+    if not (isinstance(raw, str) and raw.startswith('/')):
+        return False
+    have = set(['/', ROOT] + [mdir(d) for d in DIRS])
+    cur = []
+    for comp in raw.split('/'):
+        if comp in ('', '.'):
+            continue
+        if comp == '..':
+            if cur:
+                cur.pop()
+        else:
+            cur.append(comp)
+        if '/' + '/'.join(cur) not in have:
+            return False
+    return True
+
+
 def validate(cfg, ops):
     def s(x):
-        return isinstance(x, str)
+        return isinstance(x, str) and dir_exists(x)
 
     def deleg(d):
         return isinstance(d, list) and ((len(d) == 2 and d[0] == 'D' and s(d[1]) and d[1].startswith(ROOT)) or
@@ -176,18 +196,21 @@ def validate(cfg, ops):
             (e[0] == 'D' and len(e) == 2 and s(e[1]) and e[1].startswith(ROOT)) or
             (e[0] == 'F' and len(e) == 4 and s(e[1]) and e[1].startswith(ROOT)) or
             (e[0] == 'P' and len(e) == 2 and isinstance(e[1], list) and e[1] and
-             all(isinstance(x, list) and len(x) == 2 and s(x[0]) and x[0] and deleg(x[1]) for x in e[1]) and
+             all(isinstance(x, list) and len(x) == 2 and isinstance(x[0], str) and x[0] and deleg(x[1]) for x in e[1]) and
              len(set(x[0] for x in e[1])) == len(e[1])))
         if not okk:
             raise ValueError('not a search path')
     for op in ops:
         okk = isinstance(op, list) and op and (
-            (op[0] == 'W' and len(op) == 4 and s(op[1]) and op[1].startswith(ROOT + '/') and posixpath.normpath(op[1]) == op[1]
+            (op[0] == 'W' and len(op) == 4 and isinstance(op[1], str) and op[1].startswith(ROOT + '/') and posixpath.normpath(op[1]) == op[1]
              and posixpath.dirname(op[1])[len(ROOT) + 1:] in DIRS and isinstance(op[2], int)) or
-            (op[0] in 'TX' and len(op) == 2 and s(op[1]) and op[1].startswith(ROOT + '/') and posixpath.normpath(op[1]) == op[1]
+            (op[0] in 'TX' and len(op) == 2 and isinstance(op[1], str) and op[1].startswith(ROOT + '/') and posixpath.normpath(op[1]) == op[1]
              and posixpath.dirname(op[1])[len(ROOT) + 1:] in DIRS) or
-            (op[0] == 'L' and len(op) == 7 and s(op[1]) and op[1] and not op[1].endswith('/') and
-             (op[2] is None or s(op[2])) and op[6] in (None, 'io', 'nf', 'other')))
+            (op[0] == 'L' and len(op) == 7 and isinstance(op[1], str) and op[1] and not op[1].endswith('/') and
+             posixpath.basename(op[1]) not in ('.', '..') and
+             (op[2] is None or (isinstance(op[2], str) and (not posixpath.isabs(op[2]) or dir_exists(posixpath.dirname(op[2]))))) and
+             isinstance(op[3], int) and isinstance(op[4], int) and isinstance(op[5], bool) and
+             op[6] in (None, 'io', 'nf', 'other')))
         if not okk:
             raise ValueError('not a history')
 
